@@ -1049,28 +1049,63 @@ MONITORS["C05w"] = _wire("mon_c05w")
 def mon_c02_threads(spec, run):
     """what the registered callback is told = the independent reading of the complete lines the device sent, in order, once each —
     however the bytes were split over reads and whatever the library's other threads did in between; an incomplete trailing line is
-    never reported (not even when the link fails)"""
+    never reported (not even when the link fails).  The one exception is C13's: a SYS:MODELNAME line MAY be withheld when the library
+    started a keep-alive probe since the previous line was received — only then."""
+    import sys
     from .wire import parse_line
     tr = run.trace
     bad = []
     lc = lifecycle(tr)
     end = lc["final_close"] if lc["final_close"] is not None else 10 ** 12
-    skip = lambda m: m[1] == "SYS" and m[2] == "MODELNAME"  # noqa: E731   (keep-alive replies are withheld: C13's business)
-    allq = [(wend, parse_line(text)) for rseq, wend, text in lines_by_read(tr)]
-    total = [m for _, m in allq if not skip(m)]                       # every complete line that was ever read
     fault = lc["fault"] if lc["fault"] is not None else 10 ** 12
-    certain = [m for wend, m in allq if wend < min(end, fault) and not skip(m)]     # ... and certainly processed before the observation ended
-    got = [(e["status"], e["su"], e["fn"], e["val"]) for e in tr if e["k"] == "msg_cb" and e["cb"] == 1]
-    got = [m for m in got if not skip(m)]
-    if len(got) > len(total):
-        bad.append(("count", f"{len(got)} notifications for {len(total)} complete lines; the extra one: {got[len(total)]} (an incomplete line must not be reported)"))
-    elif len(got) < len(certain):
-        bad.append(("count", f"{len(got)} notifications for {len(certain)} complete lines; first missing: {certain[len(got)]}"))
-    for w, g in zip(total, got):
-        # lines whose syntax the property does not fix must still yield exactly one notification: those are compared by position only
-        if (w[1] is not None or w[0] != "OK") and tuple(w) != tuple(g):
-            bad.append(("parse", f"a line that reads {w} was reported as {g}"))
-            break
+    probes = library_probes(tr)
+    is_mn = lambda m: m[1] == "SYS" and m[2] == "MODELNAME"  # noqa: E731
+    L = []                                      # (message, optional, certain)
+    prev_read = 0
+    for rseq, wend, text in lines_by_read(tr):
+        m = parse_line(text)
+        may = is_mn(m) and any(lo < wend and hi > prev_read for lo, hi, _ in probes)
+        L.append((m, may, wend < min(end, fault)))
+        prev_read = rseq
+    G = [(e["status"], e["su"], e["fn"], e["val"]) for e in tr if e["k"] == "msg_cb" and e["cb"] == 1]
+
+    def eq(w, g):
+        # lines whose syntax the property does not fix must still yield exactly one notification: those match by position only
+        return not (w[1] is not None or w[0] != "OK") or tuple(w) == tuple(g)
+
+    n, k = len(L), len(G)
+    # ok[i][j]: the lines from i on explain the notifications from j on
+    ok = [[False] * (k + 2) for _ in range(n + 2)]
+    ok[n][k] = True
+    for i in range(n - 1, -1, -1):
+        w, opt, certain = L[i]
+        for j in range(k, -1, -1):
+            v = False
+            if j < k and eq(w, G[j]) and ok[i + 1][j + 1]:
+                v = True
+            elif (opt or not certain) and ok[i + 1][j]:
+                v = True
+            ok[i][j] = v
+    if ok[0][0]:
+        return bad
+    # diagnosis: the first point at which the two sequences cannot be reconciled
+    i = j = 0
+    while i < n and j < k and ok[i][j]:
+        w, opt, certain = L[i]
+        if eq(w, G[j]) and ok[i + 1][j + 1]:
+            i, j = i + 1, j + 1
+        else:
+            i += 1
+    req = [w for w, opt, certain in L if not opt and certain]
+    if k > n:
+        bad.append(("count", f"{k} notifications for {n} complete lines; the extra one: {G[n]} (an incomplete line must not be reported)"))
+    elif k < len(req):
+        missing = next((w for w in req if not any(eq(w, g) for g in G)), req[min(k, len(req) - 1)])
+        bad.append(("count", f"{k} notifications for {len(req)} complete lines that must be reported; missing: {missing}"))
+    else:
+        w = L[min(i, n - 1)][0] if n else None
+        g = G[min(j, k - 1)] if k else None
+        bad.append(("parse", f"a line that reads {w} was reported as {g}" if (w is not None and g is not None) else f"lines {[x[0] for x in L][:6]} reported as {G[:6]}"))
     return bad
 
 
@@ -1221,7 +1256,8 @@ def mon_c02_reconnect(spec, run):
         return mon_c02_threads(spec, run)
     cut = opens[1]
     bad = []
-    for name, seg in (("first", [e for e in tr if e["seq"] < cut]), ("second", [e for e in tr if e["seq"] >= cut])):
+    second = [dict(e, th=e["th"][0]) if e["th"] in ("R2", "S2") else e for e in tr if e["seq"] >= cut and e["th"] not in ("R", "S")]
+    for name, seg in (("first", [e for e in tr if e["seq"] < cut]), ("second", second)):
         if name == "first":
             # a planned close() ends the first observation: lines read but not yet handled at that moment may legitimately stay unreported
             cc = [e["seq"] for e in seg if e["k"] == "call" and e["op"][0] == "close"]
